@@ -296,7 +296,7 @@ Print Assumptions ctx_cancel_changes_no_capacity.
 
 (* History level, all schedules: for clients that send requests (handlers return or panic) and
    cancel request contexts in any order, the permits outstanding are exactly the requests whose
-   handler has not returned - cancelled or not - and never more than n.  ([is_req] admits
+   handler has not returned - cancelled or not - and never more than n.  ([is_req] accepts
    [LReq _] and [LCancel _]; maxconns_idle_means_zero, maxconns_return_never_fails,
    maxconns_unlimited and capacity_restored_limit hold for such scripts too.) *)
 Theorem ctx_cancel_history : forall n scripts sched,
